@@ -193,11 +193,15 @@ fn exec_op<'a>(warc: &Arc<World>, w: &'a World, _ix: usize, op: &Op, guards: &mu
             thread::park();
             0
         }
-        "unpark" => {
-            let t = w.threads[op.v as usize].get().as_ref().expect("unpark: unknown thread").clone();
-            t.unpark();
-            0
-        }
+        "unpark" => match w.threads[op.v as usize].get().as_ref() {
+            // a target that has not been spawned yet: nothing to do (and no scheduling point)
+            None => -1,
+            Some(t) => {
+                let t = t.clone();
+                t.unpark();
+                0
+            }
+        },
         "panic" => panic!("boom-{}", op.v),
         // ---- Mutex
         "lock" => match w.mutexes[o].lock() {
@@ -226,6 +230,13 @@ fn exec_op<'a>(warc: &Arc<World>, w: &'a World, _ix: usize, op: &Op, guards: &mu
             drop(g);
             0
         }
+        "unlock_if" => match guards[slot].take() {
+            Some(g) => {
+                drop(g);
+                1
+            }
+            None => 0,
+        },
         // non-atomic read-modify-write of the protected cell
         "ginc" => match guards[slot].as_mut().expect("ginc: empty slot") {
             Guard::M(g) => {
